@@ -313,8 +313,8 @@ def equal_args_of_different_type(G):
 
 
 def sig_for(G):
-    if arg_mentions_site_names_in_python(G):
-        return 'arg-python-capture:'
+    # (arguments whose inline Python mentions call-site names were a known finding until the
+    # free-variable fix in /repo; they are ordinary cases now)
     if equal_args_of_different_type(G):
         return 'equal-arg-conflation:'
     return ''
